@@ -173,6 +173,7 @@ func (e *Engine) havocLoopMemory(f *frame, lc *loopCtx) {
 	wholeHeaps := map[string]bool{}
 	var locs []frameLoc
 	cells := map[*Cell]bool{}
+	var iterCells []*mapIter
 	addStore := func(addr ssa.Value, t types.Type) {
 		base, ok := e.traceBase(addr)
 		if ok {
@@ -215,7 +216,13 @@ func (e *Engine) havocLoopMemory(f *frame, lc *loopCtx) {
 			case *ssa.Store:
 				addStore(x.Addr, x.Val.Type())
 			case *ssa.MapUpdate:
-				wholeHeaps["map:"] = true
+				wholeHeaps["mapP:"] = true
+				wholeHeaps["mapV:"] = true
+				wholeHeaps["mapL:"] = true
+			case *ssa.Next:
+				if it := e.iters[x.Iter]; it != nil {
+					iterCells = append(iterCells, it)
+				}
 			case *ssa.Call:
 				cc := x.Common()
 				if bi, ok := cc.Value.(*ssa.Builtin); ok {
@@ -292,6 +299,10 @@ func (e *Engine) havocLoopMemory(f *frame, lc *loopCtx) {
 				wholeHeaps["*"] = true
 			}
 		}
+	}
+	for _, it := range iterCells {
+		f.st.Cells[it.cell] = Val{C: []*smt.Term{e.X.Fresh("visited", smt.Array(it.mi.ksort, smt.Bool))}}
+		lc.mapLoop = true
 	}
 	e.havocLocs(f.st, locs)
 	for c := range cells {
@@ -478,7 +489,8 @@ func (e *Engine) backEdge(f *frame, from, h *ssa.BasicBlock) {
 		f.st = saveSt
 		e.oblige("decreases", fmt.Sprintf("L%d:%s", lc.ordinal, trunc(lc.spec.Dec.Text, 50)),
 			X.And(X.Sle(X.Const(0, 64), lc.dec0), X.Slt(v.C[0], lc.dec0)), h.Instrs[0].Pos())
-	} else if e.specDepth == 0 {
+	} else if e.specDepth == 0 && !lc.mapLoop {
+		// (iteration over a finite map terminates: every step produces a key not produced before)
 		e.failNow("decreases", fmt.Sprintf("L%d: no variant given", lc.ordinal), h.Instrs[0].Pos())
 	}
 }
